@@ -40,6 +40,7 @@ pub fn run(ctx: &mut Ctx) {
         let mut rng = ctx.rng(case);
         let mut cfg = cfg_for(ctx, case);
         cfg.big = false;
+        cfg.node_subject = case % 5 == 1;
         let (_m, e) = universe(&mut rng, cfg, case);
         let key = fresh_key(&mut rng);
         let t = tree_of(&e);
